@@ -10,7 +10,12 @@ package gelf
 // key - so the name never needs escaping and never carries a truncated code point.
 
 //@ func (*Plugin).formatExtraField
+//@   modifies encodeBuf[:cap(encodeBuf)]
 //@   ensures len(result) >= len(encodeBuf)
+//@   ensures (sameblock(result, encodeBuf) && off(result) == off(encodeBuf) && cap(result) == cap(encodeBuf)) || fresh(result)
+//@   ensures len(name) > 0 ==> len(result) >= len(encodeBuf) + 1 && result[len(encodeBuf)] == '_'
+//@   loop 1 invariant encodeBuf[old(len(encodeBuf))] == '_'
+//@   loop 1 invariant (sameblock(encodeBuf, old(encodeBuf)) && off(encodeBuf) == old(off(encodeBuf)) && cap(encodeBuf) == old(cap(encodeBuf))) || fresh(encodeBuf)
 //@   ensures forall k :: len(encodeBuf) <= k && k < len(result) ==> (('a' <= result[k] && result[k] <= 'z') || ('A' <= result[k] && result[k] <= 'Z') || ('0' <= result[k] && result[k] <= '9') || result[k] == '_' || result[k] == '-' || result[k] == '.')
 //@   loop 1 invariant len(encodeBuf) > old(len(encodeBuf))
 //@   loop 1 invariant forall k :: old(len(encodeBuf)) <= k && k < len(encodeBuf) ==> (('a' <= encodeBuf[k] && encodeBuf[k] <= 'z') || ('A' <= encodeBuf[k] && encodeBuf[k] <= 'Z') || ('0' <= encodeBuf[k] && encodeBuf[k] <= '9') || encodeBuf[k] == '_' || encodeBuf[k] == '-' || encodeBuf[k] == '.')
@@ -32,3 +37,339 @@ package gelf
 //@     ensures r == up_isnan(f)
 //@   callee MutateToFloat(f)
 //@     requires up_finite(f)
+
+// ---------------------------------------------------------------------------
+// C19 (GELF framing): the ForEach callback formats the event it is given exactly once,
+// then encodes that event exactly once onto the end of the batch buffer, and closes the
+// message with one zero byte (the GELF TCP frame delimiter).  Framing invariant of the
+// buffer: it is empty or ends with a zero byte (a sequence of complete frames).
+// The payload buffer and the name buffer are different blocks (names are never built
+// inside the payload) - assumed of the caller at entry, proved again at exit; so is "the
+// payload existed before this call" (!fresh: trivially true of a captured variable - it
+// only tells the tool that the two captured slice variables are different cells).
+// Assumed of Event.Encode (insane-json): it appends - the result is at least as long and
+// is the same block or a new one.
+
+//@ func (*Plugin).out$1
+//@   ghost nfmt int = 0
+//@   ghost nenc int = 0
+//@   ghost elen int = 0
+//@   requires len(outBuf) == 0 || outBuf[len(outBuf) - 1] == 0
+//@   requires disjoint(outBuf, encodeBuf) && !fresh(outBuf)
+//@   ensures nfmt == 1 && nenc == 1
+//@   ensures elen >= old(len(outBuf)) && len(outBuf) == elen + 1 && outBuf[elen] == 0
+//@   ensures disjoint(outBuf, encodeBuf)
+//@   ensures len(encodeBuf) >= old(len(encodeBuf))
+//@   callee formatEvent(buf, e) (r)
+//@     requires e == event && buf == encodeBuf && nfmt == 0 && nenc == 0
+//@     set nfmt := nfmt + 1
+//@   callee Encode(buf) (r, n)
+//@     requires recv == event && buf == outBuf && nfmt == 1 && nenc == 0
+//@     pure
+//@     ensures len(r) >= len(buf) && (sameblock(r, buf) || fresh(r))
+//@     set nenc := nenc + 1
+//@     set elen := len(r)
+
+// formatEvent (GELF field rules, in the order they depend on each other): first every
+// field of the event becomes an extra field ("_" + name), exactly once; only then the
+// version field is added (so it is not prefixed) and host / short_message / full_message
+// are taken from the renamed fields - each exactly once, with the gelf name, the
+// configured (already prefixed) source field and its default: "unknown" for host, the
+// configured default for short_message, none for full_message; then timestamp and level.
+// nb is a digit string over the three base fields (1 host, 10 short_message, 100
+// full_message).  The only memory of file.d written is the name buffer (append-only:
+// the result is at least as long); the JSON tree belongs to insane-json.
+
+//@ func (*Plugin).formatEvent
+//@   modifies encodeBuf[:cap(encodeBuf)]
+//@   ghost nx int = 0
+//@   ghost nver int = 0
+//@   ghost nb int = 0
+//@   ghost nts int = 0
+//@   ghost nlv int = 0
+//@   ghost xlen int = 0
+//@   ensures nx == 1 && nver == 1 && nb == 111 && nts == 1 && nlv == 1
+//@   ensures len(result) == xlen
+//@   ensures len(result) >= len(encodeBuf)
+//@   ensures (sameblock(result, encodeBuf) && off(result) == off(encodeBuf) && cap(result) == cap(encodeBuf)) || fresh(result)
+//@   callee makeExtraFields(buf, r) (res)
+//@     requires buf == encodeBuf && r == event.Root && nx == 0 && nver == 0 && nb == 0 && nts == 0 && nlv == 0
+//@     set nx := nx + 1
+//@     set xlen := len(res)
+//@   callee AddFieldNoAlloc(r, name) (n)
+//@     requires r == event.Root && name == "version" && nx == 1 && nver == 0
+//@     pure
+//@     set nver := nver + 1
+//@   callee MutateToString(v) (n)
+//@     requires v == "1.1"
+//@     pure
+//@   callee makeBaseField(r, g, c, d)
+//@     requires r == event.Root && nx == 1
+//@     requires (g == "host" && c == p.config.hostField && d == "unknown") || (g == "short_message" && c == p.config.shortMessageField && d == p.config.defaultShortMessageValue) || (g == "full_message" && c == p.config.fullMessageField && d == "")
+//@     set nb := nb + ite(g == "host", 1, ite(g == "short_message", 10, 100))
+//@   callee makeTimestampField(r, f, ff)
+//@     requires r == event.Root && f == p.config.timestampField && ff == p.config.timestampFieldFormat && nx == 1 && nts == 0
+//@     pure
+//@     set nts := nts + 1
+//@   callee makeLevelField(r, f)
+//@     requires r == event.Root && f == p.config.levelField && nx == 1 && nlv == 0
+//@     set nlv := nlv + 1
+
+// makeExtraFields ("extra fields prefixed with '_' once"): every field of the event
+// (gn of them) is renamed exactly once, in order, to the name formatExtraField has just
+// built from that field's own name - the bytes appended to the name buffer from l0 on -
+// and a value that is neither a string nor a number is replaced by its JSON text as a
+// string (cv counts the conversions of the current field).  The name buffer only grows.
+// A name that is not empty starts with '_' (formatExtraField's contract); the clause
+// `len(name) > 0` at the call of formatExtraField says that the key is not empty - for the
+// empty key formatExtraField appends nothing and the field would keep the empty name,
+// an extra field without the underscore.  THAT CLAUSE FAILS ON THE REAL CODE (finding:
+// the event {"":"x"} is sent with the key ""), everything else is discharged.
+
+//@ func (*Plugin).makeExtraFields
+//@   modifies encodeBuf[:cap(encodeBuf)]
+//@   ghost gn int = 0
+//@   ghost nfmt int = 0
+//@   ghost nren int = 0
+//@   ghost l0 int = 0
+//@   ghost gname seq = ""
+//@   ghost gstr bool = false
+//@   ghost gnum bool = false
+//@   ghost cv int = 0
+//@   ghost venc bool = false
+//@   ensures nfmt == gn && nren == gn
+//@   ensures len(result) >= len(encodeBuf)
+//@   ensures (sameblock(result, encodeBuf) && off(result) == off(encodeBuf) && cap(result) == cap(encodeBuf)) || fresh(result)
+//@   loop 1 invariant gn == len(fields) && rangeindex < len(fields)
+//@   loop 1 invariant nfmt == rangeindex + 1 && nren == rangeindex + 1
+//@   loop 1 invariant len(encodeBuf) >= old(len(encodeBuf)) && !venc
+//@   loop 1 invariant (sameblock(encodeBuf, old(encodeBuf)) && off(encodeBuf) == old(off(encodeBuf)) && cap(encodeBuf) == old(cap(encodeBuf))) || fresh(encodeBuf)
+//@   loop 1 iter-ensures cv == ite(!gstr && !gnum, 1, 0)
+//@   callee AsFields() (fs)
+//@     requires recv == root.Node
+//@     pure
+//@     set gn := len(fs)
+//@   callee AsString() (s)
+//@     requires recv == fields[rangeindex] && nfmt == rangeindex
+//@     pure
+//@     set gname := s
+//@     set cv := 0
+//@     set gnum := false
+//@   callee formatExtraField(buf, name) (r)
+//@     requires buf == encodeBuf && name == gname && nfmt == rangeindex
+//@     requires len(name) > 0
+//@     set nfmt := nfmt + 1
+//@     set l0 := len(buf)
+//@   callee MutateToField(name) (n)
+//@     requires recv == fields[rangeindex] && nfmt == rangeindex + 1 && nren == rangeindex
+//@     requires uf_viewref(name) == ref(encodeBuf) && uf_viewoff(name) == off(encodeBuf) + l0 && len(name) == len(encodeBuf) - l0
+//@     requires len(gname) > 0 ==> len(encodeBuf) > l0 && encodeBuf[l0] == '_'
+//@     pure
+//@     set nren := nren + 1
+//@   callee AsFieldValue() (v)
+//@     requires recv == fields[rangeindex]
+//@     pure
+//@   callee IsString() (r)
+//@     pure
+//@     set gstr := r
+//@   callee IsNumber() (r)
+//@     pure
+//@     set gnum := r
+//@   callee Encode(buf) (r)
+//@     requires buf == encodeBuf && !gstr && !gnum && cv == 0 && !venc
+//@     modifies buf[:cap(buf)]
+//@     ensures len(r) >= len(buf) && ((sameblock(r, buf) && off(r) == off(buf) && cap(r) == cap(buf)) || fresh(r))
+//@     set l0 := len(buf)
+//@     set venc := true
+//@   callee MutateToString(s) (n)
+//@     requires venc && cv == 0
+//@     requires uf_viewref(s) == ref(encodeBuf) && uf_viewoff(s) == off(encodeBuf) + l0 && len(s) == len(encodeBuf) - l0
+//@     pure
+//@     set cv := cv + 1
+//@     set venc := false
+
+// makeBaseField (host / short_message / full_message; "short_message default"): nothing
+// happens without a configured source field, or when the event lacks it and there is no
+// default.  Otherwise the source field - added with the default value when the event
+// lacks it - is renamed to the gelf name exactly once; its value is made a string (its
+// own text) when it is not one; and when that text is blank the value becomes the default
+// (lastdef: the last value written is the default).  A string that is not blank is left
+// as it is.
+
+//@ func (*Plugin).makeBaseField
+//@   pure
+//@   ghost ndig int = 0
+//@   ghost found bool = false
+//@   ghost nadd int = 0
+//@   ghost nren int = 0
+//@   ghost nmts int = 0
+//@   ghost isstr bool = false
+//@   ghost blank bool = false
+//@   ghost nblk int = 0
+//@   ghost lastdef bool = false
+//@   ghost gs seq = ""
+//@   ensures configFieldName == "" || (!found && defaultValue == "") ==> nren == 0 && nadd == 0 && nmts == 0
+//@   ensures configFieldName != "" && (found || defaultValue != "") ==> nren == 1 && nblk == 1 && nadd == ite(found, 0, 1)
+//@   ensures nren == 1 && blank ==> lastdef
+//@   ensures nren == 1 && found && isstr && !blank ==> nmts == 0
+//@   callee DigField(name) (f)
+//@     requires len(name) == 1 && name[0] == configFieldName && configFieldName != ""
+//@     pure
+//@     set found := ite(ndig == 0, f != nil, found)
+//@     set ndig := ndig + 1
+//@   callee AddFieldNoAlloc(r, name) (n)
+//@     requires recv == root.Node && name == configFieldName && ndig == 1 && !found && defaultValue != "" && nadd == 0
+//@     pure
+//@     set nadd := nadd + 1
+//@   callee MutateToField(name) (n)
+//@     requires name == gelfFieldName && nren == 0 && (found || nadd == 1)
+//@     pure
+//@     set nren := nren + 1
+//@   callee AsFieldValue() (v)
+//@     requires nren == 1
+//@     pure
+//@   callee IsString() (r)
+//@     pure
+//@     set isstr := r
+//@   callee AsString() (s)
+//@     pure
+//@     set gs := s
+//@   callee isBlank(s) (r)
+//@     requires s == gs && nren == 1 && nblk == 0
+//@     set blank := r
+//@     set nblk := nblk + 1
+//@   callee MutateToString(v) (n)
+//@     requires v == defaultValue || (nren == 1 && !isstr && v == gs)
+//@     requires nren == 0 ==> v == defaultValue && nadd == 1
+//@     pure
+//@     set nmts := nmts + 1
+//@     set lastdef := v == defaultValue
+
+// isBlank: blank means every character is one of space, \t, \n, \v, \f, \r, FS, GS, RS, US
+// (Java's Character.isWhitespace over ASCII).  The loop goes on only over such a
+// character and "not blank" is answered only on a character outside the set.  (Which
+// runes the range yields - UTF-8 decoding of s - is outside the tool's model: c is any
+// rune.)
+
+//@ func (*Plugin).isBlank
+//@   pure
+//@   ensures !result ==> !(c == ' ' || c == 9 || c == 10 || c == 11 || c == 12 || c == 13 || c == 28 || c == 29 || c == 30 || c == 31)
+//@   ghost nb bool = false
+//@   setat "if !isBlankChar {" nb := !(c == ' ' || c == 9 || c == 10 || c == 11 || c == 12 || c == 13 || c == 28 || c == 29 || c == 30 || c == 31)
+//@   ensures result == !nb
+//@   loop 1 invariant !nb
+//@   loop 1 iter-ensures c == ' ' || c == 9 || c == 10 || c == 11 || c == 12 || c == 13 || c == 28 || c == 29 || c == 30 || c == 31
+
+// makeLevelField ("level mapping"): without a configured / present level field nothing
+// happens.  A string level is mapped by pipeline.ParseLevelAsNumber (RFC 5424 names and
+// digits), an unknown name to 6 (informational); a numeric level is taken as it is.  The
+// number is written to the field "level" exactly once and only then the source field is
+// removed - never without the level having been written.
+
+//@ func (*Plugin).makeLevelField
+//@   pure
+//@   ghost found bool = false
+//@   ghost gstr bool = false
+//@   ghost gnum bool = false
+//@   ghost gparsed int = 0
+//@   ghost gint int = 0
+//@   ghost nadd int = 0
+//@   ghost nset int = 0
+//@   ghost ndel int = 0
+//@   ghost glevel int = 0
+//@   ensures levelField == "" || !found ==> nadd == 0 && nset == 0 && ndel == 0
+//@   ensures nadd == nset && ndel == nset && nset <= 1
+//@   ensures levelField != "" && found && gnum && gint != -1 ==> nset == 1 && glevel == gint
+//@   ensures levelField != "" && found && gstr && !gnum ==> nset == 1 && glevel == ite(gparsed == -1, 6, gparsed)
+//@   callee Dig(path) (n)
+//@     requires recv == root.Node && len(path) == 1 && path[0] == levelField && levelField != ""
+//@     pure
+//@     set found := n != nil
+//@   callee IsString() (r)
+//@     pure
+//@     set gstr := r
+//@   callee IsNumber() (r)
+//@     pure
+//@     set gnum := r
+//@   callee AsString() (s)
+//@     pure
+//@   callee ParseLevelAsNumber(s) (r)
+//@     requires gstr
+//@     pure
+//@     ensures -1 <= r && r <= 7
+//@     set gparsed := r
+//@   callee AsInt() (r)
+//@     requires gnum
+//@     pure
+//@     set gint := r
+//@   callee AddFieldNoAlloc(r, name) (n)
+//@     requires recv == root.Node && name == "level" && found && nadd == 0
+//@     pure
+//@     set nadd := nadd + 1
+//@   callee MutateToInt(v) (n)
+//@     requires nadd == 1 && nset == 0 && v != -1
+//@     pure
+//@     set nset := nset + 1
+//@     set glevel := v
+//@   callee Suicide()
+//@     requires found && nset == 1 && ndel == 0
+//@     pure
+//@     set ndel := ndel + 1
+
+// out: the payload starts empty for every batch (whatever the per-worker buffers held
+// from the batch before), is filled by ForEach only, and is handed to the client whole,
+// in one send, after the last event was encoded.  out reports success (nil: the batch is
+// committed) only if that send happened and reported no error; a failed connect or send
+// is returned to the retry loop (C09), and after a failed send the connection is closed
+// and dropped so that the next attempt reconnects.
+
+//@ func (*Plugin).out
+//@   requires p.config.BatchSize_ >= 0 && p.config.BatchSize_ * p.avgEventSize >= 0
+//@   requires workerData != nil && (isnil(*workerData) || typeis(*workerData, "*github.com/ozontech/file.d/plugin/output/gelf.data"))
+//@   ghost nfe int = 0
+//@   ghost nsend int = 0
+//@   ghost serr bool = false
+//@   ghost cerr bool = false
+//@   ghost ncls int = 0
+//@   ensures nfe == 1 && nsend <= 1
+//@   ensures isnil(result) ==> nsend == 1 && !serr
+//@   ensures cerr || serr ==> !isnil(result)
+//@   ensures serr ==> ncls == 1 && data.gelf == nil
+//@   ensures disjoint(data.outBuf, data.encodeBuf)
+//@   callee ForEach(cb)
+//@     requires recv == batch && nfe == 0 && nsend == 0 && len(outBuf) == 0 && len(encodeBuf) == 0
+//@     ensures len(outBuf) == 0 || outBuf[len(outBuf) - 1] == 0
+//@     ensures disjoint(outBuf, encodeBuf)
+//@     set nfe := nfe + 1
+//@   callee newClient(addr, ct, wt, tls, tc) (c, e)
+//@     requires nfe == 1 && addr == p.config.Endpoint
+//@     pure
+//@     ensures e == nil ==> c != nil
+//@     set cerr := e != nil
+//@   callee send(d) (n, e)
+//@     requires nfe == 1 && nsend == 0 && d == outBuf && recv != nil
+//@     requires len(d) == 0 || d[len(d) - 1] == 0
+//@     pure
+//@     set nsend := nsend + 1
+//@     set serr := e != nil
+//@   callee close() (e)
+//@     requires serr && recv != nil
+//@     pure
+//@     set ncls := ncls + 1
+//@   callee Inc()
+//@     pure
+//@   callee Sleep(d)
+//@     pure
+//@   callee Error() (s)
+//@     pure
+
+// maintenance (periodic reconnect): the connection is closed only when there is one - the
+// worker may have none (connect failed, a failed send dropped it, or maintenance ran twice
+// without a batch in between).  THE CLAUSE FAILS ON THE REAL CODE (finding: close() on
+// the nil client dereferences it - the batcher's worker goroutine panics).
+
+//@ func (*Plugin).maintenance
+//@   requires workerData != nil && (isnil(*workerData) || typeis(*workerData, "*github.com/ozontech/file.d/plugin/output/gelf.data"))
+//@   callee close() (e)
+//@     requires recv != nil
+//@     pure
